@@ -788,8 +788,15 @@ inline void arm_watchdog(double cpu_seconds)
 
 // wall-clock budget, for cases whose failure mode is a deadlock (blocked threads use no CPU time); only
 // harnesses with threads arm it, with a budget far above anything machine load can explain
+inline bool& wall_watchdog_armed()
+{
+    static bool armed = false;
+    return armed;
+}
+
 inline void arm_wall_watchdog(int seconds)
 {
+    wall_watchdog_armed() = true;
     struct itimerval it;
     std::memset(&it, 0, sizeof it);
     it.it_value.tv_sec = seconds;
@@ -798,7 +805,10 @@ inline void arm_wall_watchdog(int seconds)
 
 inline void disarm_watchdog()
 {
+    // (only if this harness armed it: libFuzzer keeps its own timers on ITIMER_REAL)
+    if (wall_watchdog_armed())
     {
+        wall_watchdog_armed() = false;
         struct itimerval real;
         std::memset(&real, 0, sizeof real);
         setitimer(ITIMER_REAL, &real, nullptr);
